@@ -1,6 +1,8 @@
 package main
 
 import (
+	"os"
+	"runtime/debug"
 	"fmt"
 	"go/constant"
 	"go/token"
@@ -89,6 +91,9 @@ func (e *Engine) assumeUsed(s string) { e.assumptions[s] = true }
 type unsupportedErr struct{ msg string }
 
 func (e *Engine) unsupportedf(format string, a ...interface{}) {
+	if os.Getenv("GOVC_STACK") != "" {
+		fmt.Fprintf(os.Stderr, "unsupported: %s\n%s\n", fmt.Sprintf(format, a...), debug.Stack())
+	}
 	panic(unsupportedErr{fmt.Sprintf(format, a...)})
 }
 
